@@ -90,6 +90,9 @@ Doubled(sl) == [i \in 1..Len(sl) |-> <<IF sl[i][1] >= PInf THEN PInf ELSE 2 * sl
 HasUndefL(sl) == \E i \in 1..Len(sl) : sl[i][2] = Undef
 ModelStep(m, e) ==
   IF ~m.modelled THEN m
+  \* a NaN somewhere inside (inf - inf under iff / xor / ==): Python's min / max / comparisons with NaN are order-dependent,
+  \* the model's Undef is not meant to mirror them
+  ELSE IF HasData(m) /\ AnyUndef(m, m.phi) THEN [m EXCEPT !.modelled = FALSE]
   ELSE
     LET batch == [v \in VarsOf(m.inst) |-> IF v \in DOMAIN e.w THEN e.w[v] ELSE <<>>]
         r == UpdateCM(m.inst, m.mem, batch, m.cfg.S, {}, m.cfg.M)
@@ -102,8 +105,10 @@ ModelStep(m, e) ==
 ModelEval(m, e) ==
   IF ~OfflineCOK(m.phi) \/ \E v \in VarsOf(m.phi) : v \notin DOMAIN e.w THEN [m EXCEPT !.modelled = FALSE]
   ELSE
-    LET r == OffCM(m.phi, [v \in VarsOf(m.phi) |-> e.w[v]], m.cfg.S, m.cfg.M) IN
-    IF r.err \/ HasUndefL(r.out) THEN [m EXCEPT !.modelled = FALSE, !.drift = IF r.err /\ e.exc = NoExc THEN 1 ELSE 0]
+    LET r == IF HasData(m) /\ AnyUndef(m, m.phi) THEN [err |-> TRUE, out |-> <<>>]
+             ELSE OffCM(m.phi, [v \in VarsOf(m.phi) |-> e.w[v]], m.cfg.S, m.cfg.M) IN
+    IF HasData(m) /\ AnyUndef(m, m.phi) THEN [m EXCEPT !.modelled = FALSE]
+    ELSE IF r.err \/ HasUndefL(r.out) THEN [m EXCEPT !.modelled = FALSE, !.drift = IF r.err /\ e.exc = NoExc THEN 1 ELSE 0]
     ELSE [m EXCEPT !.modelled = TRUE, !.mout = Doubled(r.out),
                    !.drift = IF e.exc # NoExc \/ Doubled(r.out) # e.ret THEN 1 ELSE 0,
                    !.compared = IF e.exc = NoExc /\ Doubled(r.out) = e.ret THEN m.compared + 1 ELSE m.compared]
